@@ -447,7 +447,7 @@ Fixpoint check_groups (fixed : bool) (leafof : N -> N) (nkeys : nat) (s : state)
   | (cs, o) :: r =>
       let s' := run_gen leafof fixed s (map dec_step cs) in
       let newlog := rev (firstn (length (log s') - length (log s)) (log s')) in
-      andb (obs_eqb (Z.max 0 (counter s'), content_view (content s') nkeys, map snd newlog) o)
+      andb (obs_eqb (counter s', content_view (content s') nkeys, map snd newlog) o)
            (check_groups fixed leafof nkeys s' r)
   end.
 
